@@ -105,7 +105,12 @@ Definition dispatch (x : sx) : sx :=
         end
       else sx_err "op"
   | SL [SS t; SL id; SL body] =>
-      if is_tag "encode" t then
+      if is_tag "sendwrites" t then
+        match sx_get_zs id, sx_get_zs body with
+        | Some i, Some b => SL (map sx_zs (send_writes send_is_single_write (i, b)))
+        | _, _ => sx_err "sendwrites"
+        end
+      else if is_tag "encode" t then
         match sx_get_zs id, sx_get_zs body with
         | Some i, Some b =>
             if encodable (i, b) then SL [sx_w "ok"; sx_zs (encode_message (i, b))] else SL [sx_w "err"]
